@@ -42,6 +42,8 @@ for t, c in FT.items():
     U.add('squad_' + t, [(c, 4), (c, 4), (c, 4), (c, 4), (c, 1)], [(c, 4)], 'stq(o, glm::squad(%s(a), %s(b), %s(c), %s(d), e[0]));' % (Q, Q, Q, Q))
     U.add('intermediate_' + t, [(c, 4)], [(c, 4)], 'auto q = %s(a); stq(o, glm::intermediate(q, q, q));' % Q)
     U.add('intermediate3_' + t, [(c, 4), (c, 4)], [(c, 4)], 'auto q = %s(a); auto d = %s(b); stq(o, glm::intermediate(glm::conjugate(d) * q, q, d * q));' % (Q, Q))
+    U.add('qqinv_' + t, [(c, 4)], [(c, 4)], 'auto q = %s(a); stq(o, q * glm::inverse(q));' % Q)
+    U.add('dqqinv_' + t, [(c, 4), (c, 4)], [(c, 8)], 'auto q = %s(a); auto d = %s(b); auto i = glm::inverse(q); stq(o, (d * q) * i); stq(o + 4, (glm::conjugate(d) * q) * i);' % (Q, Q))
     U.add('qexp_' + t, [(c, 4)], [(c, 4)], 'stq(o, glm::exp(%s(a)));' % Q)
     U.add('dqlerp_' + t, [(c, 8), (c, 8), (c, 1)], [(c, 8)],
           'glm::tdualquat<%s> x(%s(a), %s(a+4)), y(%s(b), %s(b+4)); auto r = glm::lerp(x, y, c[0]); stq(o, r.real); stq(o+4, r.dual);' % (c, Q, Q, Q, Q))
@@ -98,14 +100,78 @@ def mkex(unit_, mode, unwind):
         realtrig.map_pi_literals(ex); ex.trig_domain = True; ex.model_inputs_hook = realtrig.model_inputs_hook
         ex.real_nonfinite = 'oblige'      # an inf/NaN literal becomes an arbitrary real plus the side obligation that the block evaluating it is unreachable (quaternion log returns inf on one path)
     return ex
-def chk(S, unit_, fn, spec, pre=None, setup=None, **kw):
-    """check_fn in real mode; spec(i, o, T) gets a Trig context bound to the executor that ran the code; setup(res, T) may instantiate true trigonometric facts on its table"""
+def gen_squares(t):
+    """generalise: every product p*p of a compound term with itself becomes v*v for a fresh real v (one per distinct p) - sound for proving validity; makes 'sum of squares < 0' trivially unsatisfiable"""
+    subs = {}; seen = set()
+    def go(x):
+        k = x.get_id()
+        if k in seen: return
+        seen.add(k)
+        if z3.is_app(x) and x.decl().kind() == z3.Z3_OP_MUL and x.num_args() == 2 and x.arg(0).eq(x.arg(1)) and x.arg(0).num_args() > 0:
+            v = z3.Real('sq!abs%d' % len(subs)); subs[k] = (x, v * v)
+        for c in x.children(): go(c)
+    go(t)
+    return z3.substitute(t, *subs.values()) if subs else t
+def chk(S, unit_, fn, spec, pre=None, setup=None, split_side=False, witness_at=None, **kw):
+    """check_fn in real mode; spec(i, o, T) gets a Trig context bound to the executor that ran the code; setup(res, T) may instantiate true trigonometric facts on its table.
+    split_side: the executor's side conditions (domains, traps) are discharged one by one (their disjunction is much harder than each), squares generalised;
+    witness_at: the vacuity witness is sought at these input values (a free search for a model of all axioms can take long)"""
     box = {}
     def xh(res):
         box['T'] = Trig(res.ex); box['res'] = res
         return list(setup(res, box['T']) or []) if setup else []
     kw.setdefault('mode', 'real'); kw.setdefault('timeout', S.cap(40, 120)); kw.setdefault('solver', 'nra')
-    return S.check_fn(unit_, fn, lambda i, o: spec(i, o, box['T']), pre, extra_hyps=xh, ex=mkex, **kw)
+    if split_side: kw['side'] = False
+    if witness_at is not None: kw['witness'] = False
+    res = S.check_fn(unit_, fn, lambda i, o: spec(i, o, box['T']), pre, extra_hyps=xh, ex=mkex, **kw)
+    if res is None: return res
+    name = kw.get('name') or '%s.%s' % (unit_.name, fn); fl = ['w_' + fn]
+    p = pre(res.ins) if pre else []
+    hy = list(p if isinstance(p, (list, tuple)) else [p]) + res.axioms
+    if witness_at is not None:
+        pin = [v == z3.RealVal(str(c)) for row, vals in zip(res.ins, witness_at) for v, c in zip(row, vals)]
+        S.prove(name + '.witness', z3.BoolVal(False), hy + pin, timeout=S.cap(20, 60), solver='z3', kind='witness', functions=fl, expect='sat', mandatory=False, bounds='at ' + str(witness_at))
+    if split_side:
+        seen = {}
+        for kind_, cond, d in res.obligations:
+            c = gen_squares(cond)
+            if c.sexpr() in seen: continue
+            seen[c.sexpr()] = 1
+            S.prove('%s.%s[%s]#%d' % (name, kind_, d[:60], len(seen)), z3.Not(c), hy, timeout=kw['timeout'], solver=kw['solver'], kind=kind_, functions=fl, mandatory=kw.get('mandatory', True),
+                    bounds=kw.get('bounds', ''), replay=lambda m: ('no-replay', {}))
+    return res
+
+def chk_rw(S, fn, ins, pre, spec, inner, *, name=None, known=(), bounds='', mandatory=True, solver='nra', witness_at=None):
+    """Nested calls that are out of reach monolithically.  Chain: (1) each inner call (fn2, ins2, want2, tag), executed on the same executor (same sqrt/trig tables), returns want2 - proved;
+    (2) the (simplified) inner result terms are rewritten to those values inside the outer function's outputs, axioms and side conditions (sound: (1) holds under the same hypotheses; if the
+    terms do not occur the rewrite is a no-op and the query is merely hard) and what remains is decided; side conditions one by one."""
+    name = name or 'c13.' + fn; ex = mkex(U, 'real', 16); sub = []; to = S.cap(40, 120)
+    fl = ['w_' + fn] + ['w_%s (inner call, same executor)' % f2 for f2 in sorted({x[0] for x in inner})]
+    for f2, ins2, want2, tag in inner:
+        rr = sym_call(U, f2, ins=ins2, mode='real', ex=ex)
+        for j, wv in enumerate(want2):
+            S.prove('%s.inner %s[%d]' % (name, tag, j), rr.outs[0][j].r == wv, list(pre) + rr.axioms, timeout=to, solver=solver, kind='spec', functions=fl, bounds=bounds, mandatory=mandatory)
+            sub.append((z3.simplify(rr.outs[0][j].r), wv))
+    n_inner = len(ex.obligations)
+    r = sym_call(U, fn, ins=ins, mode='real', ex=ex)
+    rw = lambda x: z3.simplify(z3.substitute(z3.simplify(x), *sub))
+    hy = list(pre) + [rw(a) for a in r.axioms]
+    if witness_at is not None:
+        pin = [v == z3.RealVal(str(c)) for row, vals in zip(r.ins, witness_at) for v, c in zip(row, vals) if not is_num(v)]
+        S.prove(name + '.witness', z3.BoolVal(False), hy + pin, timeout=S.cap(20, 60), solver='z3', kind='witness', functions=fl, expect='sat', mandatory=False, bounds='at ' + str(witness_at))
+    T = Trig(ex); spec_T = lambda i, o: spec(i, o, T)
+    o2 = [[RV(v.n, rw(v.r)) for v in row] for row in r.outs]
+    allvars = [v for row in r.ins for v in row]
+    for label, g in spec(r.ins, o2, T):
+        S._prove_known('%s.%s' % (name, label), goal_term(g), hy, r, known, timeout=to, solver=solver, kind='spec', functions=fl, bounds=bounds, spec_fn=(spec_T, label), pre_fn=None,
+                       unit=U, fname=fn, mode='real', vars_=allvars, mandatory=mandatory)
+    seen = {}
+    for kind_, cond, d in r.obligations[n_inner:]:
+        c = rw(cond)
+        if z3.is_false(c) or c.sexpr() in seen: continue
+        seen[c.sexpr()] = 1
+        S.prove('%s.%s[%s]#%d' % (name, kind_, d[:60], len(seen)), z3.Not(c), hy, timeout=to, solver=solver, kind=kind_, functions=fl, bounds=bounds, mandatory=mandatory, replay=lambda m: ('no-replay', {}))
+    return r
 
 # ------------------------------------------------------------------------------------------------ the arc: specification-side names of the scalars
 def arc(i, T, kind='slerp', k=None):
@@ -326,38 +392,14 @@ def job_fastmix(t):
     return run
 
 def job_squad(t):
-    """squad(q1,q2,s1,s2,h) = mix(mix(q1,q2,h), mix(s1,s2,h), 2h(1-h)) at h = 0 / 1.  The nested term is out of reach monolithically; chain: (1) the two inner mix calls, executed on the same
-    executor (same trig table), return q1, s1 (h=0) resp. q2, s2 (h=1) - proved; (2) their (simplified) terms are rewritten to those values inside the squad term, its axioms and side obligations
-    (sound: (1) holds under the same hypotheses; if the terms do not occur the rewrite is a no-op) and the remaining outer mix at factor 0 is decided."""
+    """squad(q1,q2,s1,s2,h) = mix(mix(q1,q2,h), mix(s1,s2,h), 2h(1-h)) at h = 0 / 1: the inner mix calls return q1, s1 resp. q2, s2; the outer mix at factor 0 returns its first argument"""
     def run(S):
-        name = 'squad_' + t; fl = ['w_' + name, 'w_mix_' + t + ' (inner calls, same executor)']
         for hv in (0, 1):
             q = [[z3.Real('%s%d' % (n, j)) for j in range(4)] for n in 'abcd']; H = [z3.RealVal(hv)]
             pre = [dot(q[0], q[1]) > -1, dot(q[2], q[3]) > -1, dot(q[hv], q[2 + hv]) > -1]
-            ex = mkex(U, 'real', 16)
-            r1 = sym_call(U, 'mix_' + t, ins=[q[0], q[1], H], mode='real', ex=ex); r2 = sym_call(U, 'mix_' + t, ins=[q[2], q[3], H], mode='real', ex=ex)
-            bd = 'all real quaternions inside the domain of the three mix calls (<q1,q2>, <s1,s2>, <q%d,s%d> > -1); h = %d' % (hv + 1, hv + 1, hv)
-            sub = []
-            for tag, rr, want in (('mix(q1,q2,h)', r1, q[hv]), ('mix(s1,s2,h)', r2, q[2 + hv])):
-                for j in range(4):
-                    S.prove('c13.%s.h=%d.inner %s[%d]==%s%d' % (name, hv, tag, j, 'qs'[tag[4] == 's'], hv + 1), rr.outs[0][j].r == want[j], pre + rr.axioms, timeout=S.cap(40, 120), solver='nra', kind='spec', functions=fl, bounds=bd)
-                    sub.append((z3.simplify(rr.outs[0][j].r), want[j]))
-            n_inner = len(ex.obligations)
-            r = sym_call(U, name, ins=q + [H], mode='real', ex=ex)
-            rw = lambda x: z3.substitute(z3.simplify(x), *sub)
-            hy = pre + [rw(a) for a in r.axioms]
-            def spec2(i, o, hv=hv): return [('h=%d[%d]: out==q%d' % (hv, j, hv + 1), REq(rv(o[0][j]), i[hv][j])) for j in range(4)]
-            def mk_replay(label, oname):
-                return lambda m: real_replay(U, name, S._model_inputs(m, r), (spec2, label), None, oname, S.pid)
-            for j in range(4):
-                label = 'h=%d[%d]: out==q%d' % (hv, j, hv + 1); oname = 'c13.%s.%s' % (name, label)
-                S.prove(oname, rw(r.outs[0][j].r) == q[hv][j], hy, timeout=S.cap(40, 120), solver='nra', kind='spec', functions=fl, bounds=bd, replay=mk_replay(label, oname))
-            seen = {}
-            for kind_, cond, d in r.obligations[n_inner:]:          # one query per distinct side condition (the disjunction of all of them is much harder than each)
-                c = rw(cond)
-                if c.sexpr() in seen: continue
-                seen[c.sexpr()] = 1
-                S.prove('c13.%s.h=%d.%s[%s]#%d' % (name, hv, kind_, d[:60], len(seen)), z3.Not(c), hy, timeout=S.cap(40, 120), solver='nra', kind=kind_, functions=fl, bounds=bd, replay=lambda m: ('no-replay', {}))
+            chk_rw(S, 'squad_' + t, q + [H], pre, lambda i, o, T, hv=hv: [('h=%d[%d]: out==q%d' % (hv, j, hv + 1), REq(rv(o[0][j]), i[hv][j])) for j in range(4)],
+                   [('mix_' + t, [q[0], q[1], H], q[hv], 'mix(q1,q2,h)==q%d' % (hv + 1)), ('mix_' + t, [q[2], q[3], H], q[2 + hv], 'mix(s1,s2,h)==s%d' % (hv + 1))], name='c13.squad_%s.h=%d' % (t, hv),
+                   bounds='all real quaternions inside the domain of the three mix calls (<q1,q2>, <s1,s2>, <q%d,s%d> > -1); h = %d' % (hv + 1, hv + 1, hv), witness_at=[[1, 0, 0, 0]] * 4 + [[hv]])
     return run
 
 KF_INT, KF_EXP = 'KF-C13-intermediate-zero', 'KF-C13-quat-exp-zero-angle'
@@ -370,11 +412,13 @@ def job_intermediate(t):
     the infinity literals returned by the quaternion log for the zero quaternion are shown unreachable."""
     eps = EPS[t]
     def run(S):
-        kw = dict(solver='z3', timeout=S.cap(40, 120))
-        chk(S, U, 'intermediate_' + t, lambda i, o, T: [('intermediate(q,q,q)[%d]==q' % j, REq(rv(o[0][j]), i[0][j])) for j in range(4)], lambda i: [norm2(i[0]) > 0], known=[KF_INT],
-            bounds='all non-zero q; log/exp of real numbers uninterpreted', **kw)
-        chk(S, U, 'intermediate3_' + t, lambda i, o, T: [('intermediate(d^-1 q,q,d q)[%d]==q' % j, REq(rv(o[0][j]), i[0][j])) for j in range(4)], lambda i: [unit(i[0]), unit(i[1]), i[1][0] > 0], known=[KF_INT],
-            bounds='all unit q, unit d with d.w > 0 (rotation by less than pi on either side)', mandatory=False, **kw)
+        q = [z3.Real('a%d' % j) for j in range(4)]; d = [z3.Real('b%d' % j) for j in range(4)]; I4 = [ONE, ZERO, ZERO, ZERO]
+        chk_rw(S, 'intermediate_' + t, [q], [norm2(q) > 0], lambda i, o, T: [('intermediate(q,q,q)[%d]==q' % j, REq(rv(o[0][j]), i[0][j])) for j in range(4)],
+               [('qqinv_' + t, [q], I4, 'q*inverse(q)==1')], known=[KF_INT], witness_at=[[1, 0, 0, 0]], bounds='all non-zero q; log/exp of real numbers uninterpreted')
+        dc = [d[0], -d[1], -d[2], -d[3]]
+        chk_rw(S, 'intermediate3_' + t, [q, d], [norm2(q) > 0, unit(d), d[0] > 0], lambda i, o, T: [('intermediate(d^-1 q,q,d q)[%d]==q' % j, REq(rv(o[0][j]), i[0][j])) for j in range(4)],
+               [('dqqinv_' + t, [q, d], d + dc, '(d q) q^-1 == d, (d* q) q^-1 == d*')], known=[KF_INT], witness_at=[[1, 0, 0, 0], [1, 0, 0, 0]], mandatory=False,
+               bounds='all non-zero q, unit d with d.w > 0 (key frames equally spaced on a geodesic, less than pi apart)')
         def spec_e(i, o, T):
             q = i[0]; v = q[1:]; X = norm2(v); A = T.sqrt(0, X); out = [rv(x) for x in o[0]]; big = z3.Not(A < eps); small = A < eps
             g = [('exp.sqrt.arg==|v|^2', REq(T.sqrt_arg(0, X), X)), ('exp.w==cos|v|', RGoal('eq', out[0], T.cos(A), big))]
